@@ -53,8 +53,12 @@ type Op struct {
 	Data  []byte
 	Key   string
 	Note  string
-	Call  int // index of the API call for Call/Ack markers
+	Call  int   // index of the API call for Call/Ack markers
+	Stamp int64 // logical time (Clock) at which the op was logged
 }
+
+// Clock, if set, stamps every logged op.
+var Clock func() int64
 
 func (o Op) String() string {
 	switch o.Kind {
@@ -206,7 +210,12 @@ func NewDisk(mount string, st *State) *Disk {
 	return d
 }
 
-func (d *Disk) logOp(o Op) { d.Log = append(d.Log, o) }
+func (d *Disk) logOp(o Op) {
+	if Clock != nil {
+		o.Stamp = Clock()
+	}
+	d.Log = append(d.Log, o)
+}
 
 // Mark appends a marker op.
 func (d *Disk) Mark(kind OpKind, call int, note string) {
